@@ -644,6 +644,22 @@ func (c *blockFilterCursor) readChunkFrom(i int) error {
 		covered++
 	}
 
+	// Sections are far smaller than the chunk cap, so a chunk beyond it is one
+	// oversized section. The region bounds it is checked against come from the
+	// same metadata, and metadata a MetaStore hands over has not been checked
+	// against the file the way a footer is (FileMetadata.validate): before
+	// allocating for such a section, make sure the file really holds it.
+	if end-start > blockFilterChunkTarget {
+		fileSize, err := c.file.Seek(0, io.SeekEnd)
+		if err != nil {
+			return fmt.Errorf("failed to size the file for its block filter region: %w", err)
+		}
+		if end > fileSize {
+			return fmt.Errorf("block filter section (offset %d, size %d) runs past the end of the %d-byte file",
+				start, end-start, fileSize)
+		}
+	}
+
 	// The new buffer is taken before the old one is released, so they cannot be
 	// the same buffer.
 	buf := getScanBuffer(int(end - start))
